@@ -569,7 +569,21 @@ def rule_layer_order(chk, prog):
                     nxt = g
             on, ol = opts(nxt), opts(compat_rl)
             missing = sorted(on - ol)
-            if nxt is not None and not missing:
+            # the layer above does not only rename, it also leaves entries out (--subdir): a loop in its next() that goes
+            # back to the source's next().  The filter below has then already made a left-out name the group's file, and the
+            # names that are kept become links to something the archive does not contain.
+            skips = False
+            if nxt is not None:
+                nxt.build()
+                for (h_, body_) in nxt.loops:
+                    if any(slot_call(x) == ("struct.sqfs_dir_iterator_t", "next") for b_ in body_ for x in b_.insts if x.op == "call"):
+                        skips = True
+            if skips:
+                chk.violation("K12-layer", inst, c, "the hard link filter is below the iterator that selects and renames entries: that "
+                              "iterator leaves entries out (its next() loops over the source's next()), so the first name of a hard "
+                              "link group can be one that is not emitted and the remaining names link to a member the archive does "
+                              "not contain")
+            elif nxt is not None and not missing:
                 chk.ok("K12-layer", inst, c, "the rewriting layer translates link targets itself and reads every option it applies to names (%s)" % ", ".join(sorted(on)))
             else:
                 chk.violation("K12-layer", inst, c, "the hard link filter is below the path-rewriting iterator; its read_link() rewrites "
